@@ -24,25 +24,40 @@ type built struct{ Scheme, Host, EscapedPath, RawQuery, Full string }
 
 type generation struct {
 	name         string
-	build        func(base *url.URL, root, rp string, q *string, body bool) (*built, *http.Request, error)
+	build        func(base *url.URL, root, rp string, q *string, body bool, threshold ...int) (*built, *http.Request, error)
+	sequence     func(bases []*url.URL, root, rp string, q *string) ([]string, error) // escaped paths, one client for all
 	encodedPath  func(root, key string) string
 	encodedQuery func(name, value string) string
 }
 
 var gens = []generation{
-	{"v2", func(b *url.URL, root, rp string, q *string, body bool) (*built, *http.Request, error) {
-		x, r, err := gen2.Build(b, root, rp, q, body)
+	{"v2", func(b *url.URL, root, rp string, q *string, body bool, threshold ...int) (*built, *http.Request, error) {
+		x, r, err := gen2.Build(b, root, rp, q, body, threshold...)
 		if err != nil {
 			return nil, nil, err
 		}
 		return &built{x.Scheme, x.Host, x.EscapedPath, x.RawQuery, x.Full}, r, nil
+	}, func(bases []*url.URL, root, rp string, q *string) ([]string, error) {
+		bs, err := gen2.BuildSequence(bases, root, rp, q)
+		var out []string
+		for _, b := range bs {
+			out = append(out, b.Scheme+"|"+b.Host+"|"+b.EscapedPath)
+		}
+		return out, err
 	}, gen2.EncodedPath, gen2.EncodedQuery},
-	{"root", func(b *url.URL, root, rp string, q *string, body bool) (*built, *http.Request, error) {
-		x, r, err := gen1.Build(b, root, rp, q, body)
+	{"root", func(b *url.URL, root, rp string, q *string, body bool, threshold ...int) (*built, *http.Request, error) {
+		x, r, err := gen1.Build(b, root, rp, q, body, threshold...)
 		if err != nil {
 			return nil, nil, err
 		}
 		return &built{x.Scheme, x.Host, x.EscapedPath, x.RawQuery, x.Full}, r, nil
+	}, func(bases []*url.URL, root, rp string, q *string) ([]string, error) {
+		bs, err := gen1.BuildSequence(bases, root, rp, q)
+		var out []string
+		for _, b := range bs {
+			out = append(out, b.Scheme+"|"+b.Host+"|"+b.EscapedPath)
+		}
+		return out, err
 	}, gen1.EncodedPath, gen1.EncodedQuery},
 }
 
@@ -208,6 +223,33 @@ func main() {
 			}
 			run.Count("paths."+g.name, len(paths))
 			paths = append(paths, "/"+root+"/"+refEscape("k1")+"/sub", "/"+root+"/1/"+root+"/2", "/"+root+"/"+refEscape("a/b")+"/sub/"+refEscape(".."), "/"+root+"/(a:1,b:List(x))")
+			// one client, one resolver that keeps handing out the same *url.URL with other content each time
+			{
+				var seqBases []*url.URL
+				var seqCases []baseCase
+				for bi, b := range bases {
+					if bi%37 == 0 && !b.unspecified {
+						if u, err := url.Parse(b.url); err == nil {
+							seqBases, seqCases = append(seqBases, u), append(seqCases, b)
+						}
+					}
+				}
+				p := "/" + root + "/" + refEscape("k 1")
+				run.Eval(1)
+				got, err := g.sequence(seqBases, root, p, nil)
+				if err != nil {
+					run.Violation(g.name+"/one-client-many-bases/build-error", map[string]any{"generation": g.name, "error": err.Error()})
+				}
+				for i, s := range got {
+					want := seqBases[i].Scheme + "|" + seqBases[i].Host + "|" + seqCases[i].ctx + p
+					run.Count("one_client_requests", 1)
+					if s != want {
+						run.Violation(g.name+"/one-client-many-bases/"+classify(p, seqCases[i]), map[string]any{"generation": g.name, "position_in_sequence": i, "base": seqCases[i].url, "base_shape": seqCases[i].desc,
+							"root": root, "resource_path": p, "got": s, "expected": want, "detail": "one restli.Client, its resolver returns the same *url.URL filled in anew for every call"})
+						break
+					}
+				}
+			}
 			for bi, b := range bases {
 				base, err := url.Parse(b.url)
 				if err != nil {
@@ -259,6 +301,25 @@ func main() {
 						desc["expected_path"] = expPath
 						run.Violation(g.name+"/path/"+classify(p, b), desc)
 						continue
+					}
+					// the same call with query tunnelling on: the query moves into the body, the path stays byte for byte
+					if (bi+pi)%4 == 2 && expQuery != "" {
+						run.Eval(1)
+						gotT, _, err := g.build(base, root, p, q, withBody, 1)
+						descT := map[string]any{"generation": g.name, "base": b.url, "base_shape": b.desc, "root": root, "resource_path": p, "query": q, "with_body": withBody, "query_tunnelling_threshold": 1}
+						switch {
+						case err != nil:
+							descT["error"] = err.Error()
+							run.Violation(g.name+"/tunnelled/build-error/"+classify(p, b), descT)
+						case gotT.Scheme != base.Scheme || gotT.Host != base.Host:
+							descT["got"] = gotT
+							run.Violation(g.name+"/tunnelled/scheme-or-host-changed", descT)
+						case !b.unspecified && gotT.EscapedPath != expPath:
+							descT["got"], descT["expected_path"] = gotT, expPath
+							run.Violation(g.name+"/tunnelled/path/"+classify(p, b), descT)
+						default:
+							run.Count("tunnelled_requests", 1)
+						}
 					}
 					// the same resolver URL serves the next request, for another root resource: nothing of this request may
 					// stick to it
@@ -320,6 +381,8 @@ func main() {
 	run.Set("generations", []string{"v2", "root"})
 	run.Require("wire.requests", 20)
 	run.Require("second_requests", 100)
+	run.Require("tunnelled_requests", 100)
+	run.Require("one_client_requests", 20)
 	run.Finish()
 }
 
